@@ -108,18 +108,24 @@ def design_pegcore_run(tier, seed):
     import shutil
     states = trans = 0
     runs = []
-    # (Levels, MaxLen, ExcOps, AllCfgs, Stride, Offset, Wide)
+    # (Levels, MaxLen, ExcOps, AllCfgs, Stride, Offset, Wide, live)
+    # live: the run is checked under FairSpec (weak fairness of the composed step) for the temporal property Termination
+    # (every run of a grammar Den does not classify as looping ends, with every event consumed) and the invariant Progress
+    # (the machine is never stuck half way) in addition to NoVerdict / ResultOK
     # level 1: every operator (wide set) over the atoms, every configuration; level 2: every unary / binary operator over
     # atoms and level-1 expressions: a seeded 1/Stride sample of the ~1.5 million expressions
     if tier == "quick":
-        grid = [(1, 2, "TRUE", "TRUE", 1, 0, "TRUE"), (2, 2, "TRUE", "FALSE", 500, seed % 500, "TRUE")]
+        grid = [(1, 2, "TRUE", "TRUE", 1, 0, "TRUE", False), (2, 2, "TRUE", "FALSE", 500, seed % 500, "TRUE", False),
+                (1, 2, "TRUE", "FALSE", 1, 0, "TRUE", True)]
     else:
-        grid = [(1, 3, "TRUE", "TRUE", 1, 0, "TRUE"), (2, 2, "TRUE", "FALSE", 1, 0, "FALSE"), (2, 2, "TRUE", "FALSE", 40, seed % 40, "TRUE")]
-    for (lv, ml, exo, allc, stride, off, wide) in grid:
+        grid = [(1, 3, "TRUE", "TRUE", 1, 0, "TRUE", False), (2, 2, "TRUE", "FALSE", 1, 0, "FALSE", False), (2, 2, "TRUE", "FALSE", 40, seed % 40, "TRUE", False),
+                (1, 2, "TRUE", "TRUE", 1, 0, "TRUE", True)]
+    for (lv, ml, exo, allc, stride, off, wide, live) in grid:
         d = tempfile.mkdtemp(prefix="mcpeg", dir=vlib.CACHE)
         cfg = os.path.join(d, "MC.cfg")
-        open(cfg, "w").write("SPECIFICATION Spec\nCONSTANTS Levels = %d MaxLen = %d ExcOps = %s AllCfgs = %s Stride = %d Offset = %d Wide = %s\n"
-                             "INVARIANTS NoVerdict ResultOK\nCHECK_DEADLOCK FALSE\n" % (lv, ml, exo, allc, stride, off, wide))
+        open(cfg, "w").write("SPECIFICATION %s\nCONSTANTS Levels = %d MaxLen = %d ExcOps = %s AllCfgs = %s Stride = %d Offset = %d Wide = %s\n"
+                             "INVARIANTS NoVerdict ResultOK%s\nCHECK_DEADLOCK FALSE\n"
+                             % ("FairSpec" if live else "Spec", lv, ml, exo, allc, stride, off, wide, " Progress\nPROPERTY Termination" if live else ""))
         rc, txt = vlib.run(["java", "-XX:+UseParallelGC", "-Xss64m", "-Xmx24g", "-cp", vlib.TLC_JAR, "tlc2.TLC", "-noGenerateSpecTE", "-workers", "16",
                             "-metadir", os.path.join(d, "md"), "-config", cfg, "MC_PegCore.tla"], 14000, cwd=vlib.SPEC)
         shutil.rmtree(d, ignore_errors=True)
@@ -136,6 +142,7 @@ def design_pegcore_run(tier, seed):
         trans += int(m.group(1))
         states += int(m.group(2))
         runs.append({"Levels": lv, "MaxLen": ml, "ExcOps": exo, "AllCfgs": allc, "Stride": stride, "Wide": wide,
+                     "checked": "NoVerdict ResultOK" + (" Progress; Termination under weak fairness" if live else ""),
                      "runs": int(mi.group(1)) if mi else 0, "distinct": int(m.group(2))})
     return {"states": states, "transitions": trans, "design": {"MC_PegCore.tla": runs}}
 
